@@ -86,7 +86,7 @@ def weave_once(repo, out, degraded, lock, write_lock):
             raise RecipeError(name, str(e))
         except (IndexError, KeyError, TypeError, AttributeError) as e:
             raise RecipeError(name, "recipe %s: anchor lookup failed (%s: %s)" % (name, type(e).__name__, e))
-    if write_lock:
+    if write_lock and not degraded:
         by = {}
         for sp in ctx.specs:
             by.setdefault(sp["recipe"], []).append(sp)
